@@ -1338,9 +1338,77 @@ fn ecmstage2(_rng: &mut Rng, iters: u64) {
     }
 }
 
+
+/// C12 probe (bounded stand-in: SIQS polynomial selection is not under contract): the factors selected for the A values
+/// never divide n (also when n has factor-base primes as divisors), carry square roots of n, their table of mutual
+/// inverses is right, and every A returned by select_a is a product of nfacs distinct selected primes
+fn siqsfactors(rng: &mut Rng, iters: u64) {
+    use yamaquasi::fbase::FBase;
+    use yamaquasi::siqs::{select_a, select_siqs_factors};
+    use yamaquasi::Verbosity;
+    type Int = bnum::types::I1024;
+    let sizes: &[(u32, usize, u32)] = if iters < 1000 { &[(80, 2, 120), (140, 4, 400), (220, 7, 3000)] } else { &[(64, 2, 80), (80, 2, 120), (100, 3, 200), (140, 4, 400), (180, 5, 1200), (220, 7, 3000), (260, 9, 6000)] };
+    for &(bits, nfacs, fbsize) in sizes {
+        for round in 0..(if iters < 1000 { 2 } else { 6 }) {
+            // n = (a few small odd primes) * (random cofactor): some factor-base primes divide n
+            let smalls = [3u64, 5, 7, 11, 13, 17, 19, 23, 29, 31, 37, 41, 43, 47, 53, 59, 61, 67, 71, 73];
+            let mut n = Uint::ONE;
+            for _ in 0..(round % 4) { n = n * Uint::from(smalls[(rng.next() % 20) as usize]); }
+            while n.bits() < bits { n = (n << 30u32) + Uint::from(rng.next() >> 34 | 1); }
+            n = n | Uint::ONE;
+            // second and third passes: n multiplied by primes that the first pass selected (they now divide n and sit
+            // in the middle of the candidate pool)
+            let mut variants = vec![n];
+            if let Ok(ps) = catch_unwind(AssertUnwindSafe(|| {
+                let nint = Int::from_bits(n);
+                let fb = FBase::new(nint, fbsize);
+                select_siqs_factors(&fb, &nint, nfacs, 1usize << 16, Verbosity::Silent).factors.iter().map(|x| x.p).collect::<Vec<u64>>()
+            })) {
+                if ps.len() >= 3 {
+                    variants.push(n * Uint::from(ps[ps.len() / 2]));
+                    variants.push(n * Uint::from(ps[1]) * Uint::from(ps[ps.len() - 2]));
+                }
+            }
+            for n in variants {
+            let nint = Int::from_bits(n);
+            let res = catch_unwind(AssertUnwindSafe(|| {
+                let fb = FBase::new(nint, fbsize);
+                let mm = 1usize << 16;
+                let f = select_siqs_factors(&fb, &nint, nfacs, mm, Verbosity::Silent);
+                let ps: Vec<u64> = f.factors.iter().map(|x| x.p).collect();
+                for (i, pr) in f.factors.iter().enumerate() {
+                    let (p, r) = (pr.p, pr.r);
+                    let nmod = (n % Uint::from(p)).digits()[0];
+                    if nmod == 0 { return Err(format!("select_siqs_factors(n = {n}, {nfacs} factors): the selected prime {p} divides n (selected: {ps:?})")); }
+                    if p < 3 || (r as u128 * r as u128 % p as u128) as u64 != nmod { return Err(format!("select_siqs_factors(n = {n}): selected prime {p} with r = {r}, r^2 mod p = {}, n mod p = {nmod}", r as u128 * r as u128 % p as u128)); }
+                    if i > 0 && ps[i - 1] >= p { return Err(format!("select_siqs_factors(n = {n}): selected primes not increasing: {ps:?}")); }
+                    for (j, q) in f.factors.iter().enumerate() {
+                        let inv = f.inverses[i][j] as u64;
+                        if i != j && (p % q.p) * inv % q.p != 1 { return Err(format!("select_siqs_factors(n = {n}): inverses[{i}][{j}] = {inv} is not 1/{p} mod {}", q.p)); }
+                    }
+                }
+                let a_s = select_a(&f, 8, Verbosity::Silent);
+                for a in &a_s {
+                    let mut rest = *a; let mut cnt = 0;
+                    for &p in &ps { if (rest % Uint::from(p)).is_zero() { rest = rest / Uint::from(p); cnt += 1; } }
+                    if rest != Uint::ONE || cnt != nfacs { return Err(format!("select_a(n = {n}, {nfacs} factors): A = {a} is not a product of {nfacs} distinct selected primes {ps:?}")); }
+                }
+                Ok(())
+            }));
+            match res {
+                Err(_) => fail("siqsfactors", format!("select_siqs_factors / select_a (n = {n}, {nfacs} factors, factor base {fbsize}): panic")),
+                Ok(Err(e)) => fail("siqsfactors", e),
+                Ok(Ok(())) => {}
+            }
+            }
+        }
+    }
+}
+
 pub fn run(case: &str, rng: &mut Rng, iters: u64) -> bool {
     match case {
         "pp1" => pp1_case(),
+        "siqsfactors" => siqsfactors(rng, iters),
         "ecmstage2" => ecmstage2(rng, iters),
         "ecmsearch" => ecmsearch(iters),
         "mpqsroots" => mpqsroots(rng, iters),
